@@ -1680,6 +1680,8 @@ class Interval(Node):
 
         if self.largest == "MICROSECOND":
             expr = getattr(self, "microseconds")
+            if self.is_negative:
+                expr = "-{}".format(expr)
             unit = "MICROSECOND"
 
         elif hasattr(self, "quarters"):
